@@ -35,7 +35,11 @@ pub fn build(case: &Value, lperm: &[usize], aperm: &[usize]) -> Result<Built, St
         rb = rb.appender(a.as_str().unwrap());
     }
     // strict and lossy builds are both entry points to the same routing (the file loaders use the lossy one)
-    let root = rb.build(level_filter(case["root"]["lvl"].as_i64().unwrap()));
+    // a third of the builds declare the root at Off and give it its level afterwards, through Config::root_mut():
+    // what routes and gates is the configuration as it is when the logger is made, not as it was when it was built
+    let root_lvl = level_filter(case["root"]["lvl"].as_i64().unwrap());
+    let late_level = (lperm.len() + aperm[1] + case["loggers"].as_array().unwrap().len()) % 3 == 0;
+    let root = rb.build(if late_level { log::LevelFilter::Off } else { root_lvl });
     let cfg = if (lperm.first().copied().unwrap_or(0) + aperm[0]) % 2 == 1 {
         let (cfg, errs) = b.build_lossy(root);
         if !errs.is_empty() {
@@ -45,6 +49,10 @@ pub fn build(case: &Value, lperm: &[usize], aperm: &[usize]) -> Result<Built, St
     } else {
         b.build(root).map_err(|e| format!("strict build refused a valid configuration: {}", e))?
     };
+    let mut cfg = cfg;
+    if late_level {
+        cfg.root_mut().set_level(root_lvl);
+    }
     let reported = Arc::new(Counter::default());
     let rep = reported.clone();
     let logger = log4rs::Logger::new_with_err_handler(cfg, Box::new(move |_| {
